@@ -196,6 +196,11 @@ Record msummary := mkSummary {
   m_regargs : list regarg;
   m_dtor : option dtorinfo }.
 Record fielddecl := mkFieldDecl { fd_class : string; fd_name : string; fd_atomic : bool; fd_sync : bool; fd_tls : bool }.
+(* An object with static storage duration (static data member, function-local static, namespace-scope variable, thread_local)
+   is ONE location shared by all objects of its class and by all threads.  sv_tls: it lives in a TLS section; sv_atomic: its
+   declared type is std::atomic / AtomicIntegerT; sv_accs: (function, R|W) over the functions of muduo/base, net, poller. *)
+Inductive sclass := SAtomic | SGuarded (m : string) | SThreadLocal | SInitOnce (writers : list string) | SConstAfterInit.
+Record staticvar := mkSV { sv_name : string; sv_where : string; sv_tls : bool; sv_atomic : bool; sv_accs : list (string * rw) }.
 Record ptable := mkTable { t_fields : list (string * string * pclass);
                            t_methods : list (string * string * contract);
                            t_decls : list fielddecl;
@@ -203,6 +208,8 @@ Record ptable := mkTable { t_fields : list (string * string * pclass);
                                                                      destroy the object (EventLoop::quit_) *)
                            t_shared : list string;                (* classes deriving from enable_shared_from_this (AST fact):
                                                                      their lifetime is a reference count, not the caller's scope *)
+                           t_statics : list staticvar;            (* the regenerated inventory *)
+                           t_static_classes : list (string * sclass);   (* ... and its committed classification *)
                            t_lifetime_ok : list (string * string * string)
                              (* (class, posting method, callee): a raw-`this` post whose object is kept alive by other means,
                                 justified in lib/C08_table.txt *) }.
@@ -545,6 +552,31 @@ Definition callback_violations (T : ptable) (S : list msummary) : list violation
                 else []
       else []) (m_regargs m)) S.
 
+(* static storage: every inventory entry needs a class, and must live up to it.  atomic / threadlocal are facts of the
+   declaration; const-after-init: no function writes it; init-once: only the named set-up functions write it; guarded is
+   not supported (no lock-scope facts for free functions): always a violation, so that nobody can use it to silence one. *)
+Fixpoint lookup1 {A} (n : string) (l : list (string * A)) : option A :=
+  match l with
+  | [] => None
+  | (n', a) :: r => if seqb n n' then Some a else lookup1 n r
+  end.
+
+Definition static_ok (sv : staticvar) (c : sclass) : bool :=
+  match c with
+  | SAtomic => sv_atomic sv
+  | SThreadLocal => sv_tls sv
+  | SConstAfterInit => forallb (fun a => match snd a with W => false | R => true end) (sv_accs sv)
+  | SInitOnce ws => forallb (fun a => match snd a with W => mem (fst a) ws | R => true end) (sv_accs sv)
+  | SGuarded _ => false
+  end.
+
+Definition static_violations (T : ptable) : list violation :=
+  flat_map (fun sv =>
+    match lookup1 (sv_name sv) (t_static_classes T) with
+    | None => [mkViol "static" (sv_where sv) (sv_name sv) "nostaticclass"]
+    | Some c => if static_ok sv c then [] else [mkViol "static" (sv_where sv) (sv_name sv) "staticclass"]
+    end) (t_statics T).
+
 Definition viol_eqb (a b : violation) : bool :=
   seqb (v_class a) (v_class b) && seqb (v_site a) (v_site b) && seqb (v_what a) (v_what b) && seqb (v_kind a) (v_kind b).
 
@@ -556,7 +588,8 @@ Fixpoint dedup (l : list violation) : list violation :=
 
 Definition violations_raw (T : ptable) (S : list msummary) : list violation :=
   access_violations T S ++ call_violations T S ++ failfast_violations T S ++ coverage_violations T S
-  ++ callback_violations T S ++ borrow_violations T S ++ useafter_violations T S ++ teardown_violations T S.
+  ++ callback_violations T S ++ borrow_violations T S ++ useafter_violations T S ++ static_violations T
+  ++ teardown_violations T S.
 Definition violations (T : ptable) (S : list msummary) : list violation := dedup (violations_raw T S).
 
 (* the obligation closed by vm_compute in Properties_C08.v: every violation of the regenerated summaries is a
